@@ -24,7 +24,7 @@ const char *vprop_class_names[V_NCLASS] = {
   "misaligned", "const_n", "target_avx", "target_sse", "target_mmx", "reduced_flags", "single_opcode",
   "var64", "exhaustive_pairs", "multi_insn_ge_5", "params",
   #ifdef C03_MODE
-  "trailing_guard", "leading_guard", "unmapped_row_gaps", NULL
+  "trailing_guard", "leading_guard", "unmapped_row_gaps", "generated_c_path", NULL
 #else
   "saves_callee_regs", "sets_mxcsr", "uses_mmx_regs", NULL
 #endif
@@ -176,6 +176,7 @@ static int run_one (OrcProgram *p, ProgSpec *ps, RunCfg *rc, VResult *r, const c
 #include <signal.h>
 #include <unistd.h>
 #include <ucontext.h>
+#include "../engine/cgen.h"
 /* C03: arrays flush against inaccessible pages, sources read-only; a fault is reported with the array and the
  * distance from the entitled range; native and emulation both run on guarded arenas and must agree */
 static Arena *c03_cur_arena;
@@ -217,8 +218,37 @@ static int run_one (OrcProgram *p, ProgSpec *ps, RunCfg *rc, VResult *r, const c
   v_stage (r, "run-emulate");
   orc_executor_emulate (&exe);
   c03_cur_arena = NULL;
+  /* third path: the C source Orc generates, compiled by gcc, for one program in six (decided by the program's hash, so that no
+     choice is consumed); it runs on its own guarded arena */
+  if (ps_hash (ps) % 6 == 0 && v_arg ("cg_inc", NULL)) {
+    static CgUnit cu; static uint64_t cu_hash; static int cu_ok;
+    static OrcProgram *pc;
+    if (cu_hash != ps_hash (ps) + 1) {
+      if (cu_ok) { cg_close (&cu); cu_ok = 0; }
+      if (pc) { orc_program_free (pc); pc = NULL; }
+      pc = ps_build (ps);
+      v_stage (r, "@notmine: compile generated C");
+      cu_ok = cg_make (pc, ps, CG_BARE, "-O2", v_arg ("scratch", "/verif/_work/scratch"), &cu) == 0;
+      cu_hash = ps_hash (ps) + 1;
+    }
+    if (cu_ok) {
+      Arena ac;
+      OrcExecutor exc;
+      if (!arena_build (&ac, ps, rc, 1)) {
+        exec_setup (&exc, pc, NULL, ps, rc, &ac);
+        c03_cur_arena = &ac; c03_cur_path = "generated-c";
+        v_stage (r, "run-generated-c");
+        cu.fn (&exc);
+        c03_cur_arena = NULL;
+        if (arena_check_untouched (&ac, ps, rc, msg, sizeof msg)) { v_fail (r, "stray-write path=generated-c", "compiled generated C wrote outside destination elements 0..n-1: %s", msg); bad = 1; }
+        arena_free (&ac);
+        r->classes |= 1u << 23;
+      }
+    }
+  }
   v_stage (r, "compare");
-  if (arena_check_untouched (&an, ps, rc, msg, sizeof msg)) {
+  if (bad) { }
+  else if (arena_check_untouched (&an, ps, rc, msg, sizeof msg)) {
     char sig[V_SIG_MAX];
     snprintf (sig, sizeof sig, "stray-write path=%s", tname);
     v_fail (r, sig, "native code wrote outside destination elements 0..n-1: %s", msg);
